@@ -21,6 +21,9 @@ checks = {
  "C11": dict(cat="other", tech="bounded symbolic execution of go/ssa + SMT (z3): symbolic values, flush placement, buffer positions and read fragmentation",
     text="The real p2p.Conn code (real buffer sizes, real writer goroutine under a cooperative scheduler) is executed symbolically on four operation families; sent values, flush placement, the write position near the end of the 64 KiB buffer, unread bytes at the end of the 1 MiB read buffer and the size of every transport read are symbolic. Assertions: documented big-endian encoding, received = sent in order, Close delivers everything, counters = bytes moved.",
     ref="DESIGN.md C11", engine="gosymx"),
+ "C13": dict(cat="other", tech="bounded symbolic execution of go/ssa + SMT (z3) with a symbolic math/big.Int model and symbolic hex text",
+    text="IOArg.Set (scalar, compound, byte array), Sizes/bitLen, IOArg.Parse on hex array literals with symbolic digits (incl. elements wider than 64 bits) and mpc.Result are executed symbolically; every bit-layout, agreement, minimal-size, inverse and purity assertion is an SMT obligation over all values. Two defects found this way were repaired (fix: commits a47b49e, a408df4).",
+    ref="DESIGN.md C13", engine="gosymx"),
  "C07": dict(cat="translation_validation", tech="SMT miter (z3) of the real builders' gate lists against bit-vector reference semantics, all operand values",
     text="Each real builder invocation (operator x operand widths x result width x target x algorithm) is compiled by the real circuits.Compiler and its output is proved equal to the exact function mod 2^wz for ALL operand values by z3 (per-output-bit incremental miter); the width/configuration quantifier is an enumerated, stated family. Counterexamples are replayed through the real Circuit.Compute.",
     ref="DESIGN.md C07", engine="circtv", script="python3-vt",
